@@ -68,8 +68,10 @@ def loads(s: str) -> t.Any:
     return dec(json.loads(s))
 
 
-def brief(o: t.Any, limit: int = 96) -> t.Any:
+def brief(o: t.Any, limit: int = 96, depth: int = 0) -> t.Any:
     """A JSON-able, abbreviated rendering of a case for evidence samples."""
+    if depth > 40 and isinstance(o, (tuple, list, dict, set, frozenset)):
+        return "...(nested deeper)"
     if isinstance(o, (bytes, bytearray, memoryview)):
         b = bytes(o)
         if len(b) > limit:
@@ -85,13 +87,13 @@ def brief(o: t.Any, limit: int = 96) -> t.Any:
         s = str(o)
         return {"$i": s if len(s) < 80 else s[:40] + "..." + s[-10:], "bits": o.bit_length()}
     if isinstance(o, tuple):
-        return {"$t": [brief(x, limit) for x in o[:40]] + (["..."] if len(o) > 40 else [])}
+        return {"$t": [brief(x, limit, depth + 1) for x in o[:40]] + (["..."] if len(o) > 40 else [])}
     if isinstance(o, list):
-        return [brief(x, limit) for x in o[:40]] + ([f"...(+{len(o) - 40})"] if len(o) > 40 else [])
+        return [brief(x, limit, depth + 1) for x in o[:40]] + ([f"...(+{len(o) - 40})"] if len(o) > 40 else [])
     if isinstance(o, dict):
-        return {str(k): brief(v, limit) for k, v in o.items()}
+        return {str(k): brief(v, limit, depth + 1) for k, v in o.items()}
     if isinstance(o, (set, frozenset)):
-        return {"$s": [brief(x, limit) for x in sorted(o, key=repr)[:40]]}
+        return {"$s": [brief(x, limit, depth + 1) for x in sorted(o, key=repr)[:40]]}
     if o is None or isinstance(o, (bool, float)):
         return o
     return repr(o)[:200]
